@@ -408,6 +408,94 @@ example : ∃ c, mk [⟨0,0,0⟩, ⟨7,0,0⟩, ⟨4,4,4⟩] 8 (some ⟨8,8,8⟩)
     minImageSq ⟨8,8,8⟩ ⟨0,0,0⟩ ⟨7,0,0⟩ = 1 :=
   ⟨_, rfl, by decide +kernel, by decide +kernel, by decide +kernel⟩
 
+/-! ## periodic, general box matrix (rows = box vectors; any invertible ℚ matrix)
+
+`mkG` / `atomsOneG` model the code path for an arbitrary box: `move_inside_box` through fractional
+coordinates (`coord·B⁻¹ mod 1 ·B`), replication by `i·B₀ + j·B₁ + k·B₂`, `i,j,k ∈ {-1,0,1}`, `% n`. -/
+
+/-- **What the code computes for ANY invertible box**: `get_atoms(q, r)` = the selected atoms one of
+whose 27 images (of the moved-inside atom) lies within `r` of the moved-inside query. -/
+theorem C14_periodic_exact_lattice_general (coords : List V3) (cs : Rat) (B : M3) (sel : Option (List Bool))
+    (c : CL) (h : mkG coords cs B sel = some (.ok c)) (q : V3) (r : Rat) (hr : 0 ≤ r) (t : Nat) :
+    t ∈ c.atomsOneG B q r ↔
+      ∃ p, coords[t]? = some p ∧ (selMask sel coords.length)[t]? = some true ∧
+        ∃ s ∈ shifts, sqDist (wrapG B q) (shiftG B s (wrapG B p)) ≤ r * r :=
+  periodicG_exact27 coords cs B sel c h q r hr t
+
+/-- The 27-image set is always contained in the all-lattice set, and equals it whenever the 27 images
+are `Sufficient` for the box's quadratic form at `r²`:
+then `get_atoms(q,r) = {a | min over ALL lattice vectors n of |a + n·B − q|² ≤ r²}`. -/
+theorem C14_periodic_general_min_image (coords : List V3) (cs : Rat) (B : M3) (sel : Option (List Bool))
+    (c : CL) (h : mkG coords cs B sel = some (.ok c)) (q : V3) (r : Rat) (hr : 0 ≤ r)
+    (hs : Sufficient B (r * r)) (t : Nat) :
+    t ∈ c.atomsOneG B q r ↔
+      ∃ p, coords[t]? = some p ∧ (selMask sel coords.length)[t]? = some true ∧
+        ∃ n : I3, sqDist q (shiftG B n p) ≤ r * r := by
+  have hdet := (mkG_ok coords cs B sel c h).2.2.2.2.2.2.1
+  rw [periodicG_exact27 coords cs B sel c h q r hr t]
+  constructor
+  · rintro ⟨p, hp, hsel, h27⟩
+    exact ⟨p, hp, hsel, (images27_iff_lattice B hdet p q _ hs).mp h27⟩
+  · rintro ⟨p, hp, hsel, hl⟩
+    exact ⟨p, hp, hsel, (images27_iff_lattice B hdet p q _ hs).mpr hl⟩
+
+/-- **Orthogonal boxes in any orientation** (pairwise orthogonal box vectors: rotated, permuted, mirrored
+orthorhombic cells): minimum-image exactness for every query point and every radius, unconditionally. -/
+theorem C14_orthogonal_min_image (coords : List V3) (cs : Rat) (B : M3) (sel : Option (List Bool))
+    (c : CL) (h : mkG coords cs B sel = some (.ok c)) (ho : OrthoRows B) (q : V3) (r : Rat) (hr : 0 ≤ r) (t : Nat) :
+    t ∈ c.atomsOneG B q r ↔
+      ∃ p, coords[t]? = some p ∧ (selMask sel coords.length)[t]? = some true ∧
+        ∃ n : I3, sqDist q (shiftG B n p) ≤ r * r :=
+  C14_periodic_general_min_image coords cs B sel c h q r hr (sufficient_of_ortho B ho _) t
+
+/-- **General triclinic boxes**: minimum-image exactness for radii up to half the smallest box height
+(`HalfHeight B r²`: `4 r² |colᵢ(B⁻¹)|² ≤ 1` for the three columns, i.e. `r ≤ hᵢ/2`). -/
+theorem C14_triclinic_min_image (coords : List V3) (cs : Rat) (B : M3) (sel : Option (List Bool))
+    (c : CL) (h : mkG coords cs B sel = some (.ok c)) (q : V3) (r : Rat) (hr : 0 ≤ r)
+    (hh : HalfHeight B (r * r)) (t : Nat) :
+    t ∈ c.atomsOneG B q r ↔
+      ∃ p, coords[t]? = some p ∧ (selMask sel coords.length)[t]? = some true ∧
+        ∃ n : I3, sqDist q (shiftG B n p) ≤ r * r :=
+  C14_periodic_general_min_image coords cs B sel c h q r hr
+    (sufficient_of_halfHeight B (mkG_ok coords cs B sel c h).2.2.2.2.2.2.1 _ hh) t
+
+/-- construct + one periodic query (for closed `decide` statements) -/
+def queryG (coords : List V3) (cs : Rat) (B : M3) (q : V3) (r : Rat) : Option (List Nat) :=
+  match mkG coords cs B none with
+  | some (.ok c) => some (c.atomsOneG B q r)
+  | _ => none
+
+theorem queryG_spec (coords : List V3) (cs : Rat) (B : M3) (q : V3) (r : Rat) (l : List Nat)
+    (h : queryG coords cs B q r = some l) :
+    ∃ c, mkG coords cs B none = some (.ok c) ∧ c.atomsOneG B q r = l := by
+  unfold queryG at h
+  split at h
+  · rename_i c hc
+    exact ⟨c, hc, Option.some.inj h⟩
+  · simp at h
+
+/-- Known defect beyond the hypothesis (kept visible; replayed on the real code, known finding
+`C14/periodic/skewed-triclinic-box/minimum-image-outside-27-replicas`): in the strongly skewed box
+`(2,0,0),(0,2,0),(5,0,2)` the atom `(0,0,1)` is at distance exactly 1 from the query `(0,0,0)` — no lattice
+shift needed — but `get_atoms((0,0,0), 1)` returns nothing: after `move_inside_box` the minimum image is not
+among the 27 replicas.  (`r = 1` exceeds half the smallest box height: `4·r²·|col_x(B⁻¹)|² = 29/4 > 1`.) -/
+theorem C14_triclinic_27_images_defect :
+    (∃ c, mkG [⟨0,0,1⟩] 1 ⟨⟨2,0,0⟩, ⟨0,2,0⟩, ⟨5,0,2⟩⟩ none = some (.ok c) ∧
+      c.atomsOneG ⟨⟨2,0,0⟩, ⟨0,2,0⟩, ⟨5,0,2⟩⟩ ⟨0,0,0⟩ 1 = []) ∧
+    sqDist ⟨0,0,0⟩ (shiftG ⟨⟨2,0,0⟩, ⟨0,2,0⟩, ⟨5,0,2⟩⟩ ⟨0,0,0⟩ ⟨0,0,1⟩) ≤ 1 * 1 ∧
+    4 * (1 * 1) * (colSq ⟨⟨2,0,0⟩, ⟨0,2,0⟩, ⟨5,0,2⟩⟩).x = 29 / 4 :=
+  ⟨queryG_spec _ _ _ _ _ _ (by decide +kernel), by decide +kernel, by decide +kernel⟩
+
+-- non-vacuity: a mirrored + permuted orthorhombic box (rows along y, -x, z) is `OrthoRows`, the model wraps through
+-- fractional coordinates and finds the neighbour through the box face
+example : OrthoRows ⟨⟨0,8,0⟩, ⟨-4,0,0⟩, ⟨0,0,16⟩⟩ ∧
+    queryG [⟨0,0,0⟩, ⟨3,7,0⟩] 2 ⟨⟨0,8,0⟩, ⟨-4,0,0⟩, ⟨0,0,16⟩⟩ ⟨0,0,0⟩ 2 = some [1, 0] := by
+  refine ⟨by simp only [OrthoRows, dot]; norm_num, by decide +kernel⟩
+
+-- non-vacuity: a triclinic box that satisfies the half-height hypothesis for r = 1
+example : HalfHeight ⟨⟨4,0,0⟩, ⟨2,4,0⟩, ⟨1,-2,4⟩⟩ (1 * 1) := by
+  simp only [HalfHeight, colSq, M3.inv, M3.det]; norm_num
+
 /-! ## non-vacuity: the hypotheses are satisfiable and the model computes the expected sets -/
 
 -- query left of the grid (cell index truncates to 0), radius = cell size: atom 0 at distance 3 is found
